@@ -698,6 +698,11 @@ class Exec:
                 st.assume(z3.Implies(prev.t, b))
             st.scal['ghost.abort_seen'] = BoolV(b)
             self.logw(('s', 'ghost.abort_seen'))
+            # where in the run this read takes place (control skeleton of main: 0 inside the loop, 1 after it)
+            ph = st.scal.get('ghost.phase_after_loop')
+            fa = st.scal.get('ghost.final_appends')
+            st.scal['ghost.abort_read_phase'] = IntV((ph.t if ph is not None else I(0)) + (fa.t if fa is not None else I(0)), parse_type_str('long'))
+            self.logw(('s', 'ghost.abort_read_phase'))
             return BoolV(b)
         if q not in models.CONST_GLOBALS and ('vfps::physcons::' + str(q)) in models.CONST_GLOBALS and ct.kind == 'float':
             q = 'vfps::physcons::' + q       # dump without namespace context (main)
